@@ -573,7 +573,9 @@ struct Child {
 }
 
 fn spawn_worker(bin: &str, prop: &str, tier: Tier, flavour: &str, is_default: bool, w: u64, nw: u64, resume: Option<(u64, u64)>, slot_dir: &Path) -> Child {
-    let slot_path = slot_dir.join(format!("{}-{}-{}.slot", prop, flavour, w)).to_string_lossy().to_string();
+    // the run's own process id is part of the name: two runs of one property at the same time
+    // (quick and thorough, say) must not watch each other's workers
+    let slot_path = slot_dir.join(format!("{}-{}-{}-{}.slot", prop, flavour, std::process::id(), w)).to_string_lossy().to_string();
     let _ = std::fs::write(&slot_path, [0xffu8; 24]);
     let mut cmd = Command::new(bin);
     cmd.arg(prop).arg(tier.name()).arg("--worker").arg(w.to_string()).arg(nw.to_string()).arg(flavour).arg(if is_default { "1" } else { "0" }).arg(&slot_path);
@@ -964,7 +966,10 @@ fn parent_main(def: &CheckDef, prop: &str, tier: Tier, cli_tier: &str, bins: &[(
     });
     let _ = std::fs::create_dir_all(root.join("evidence"));
     let evp = root.join("evidence").join(format!("{}.json", prop));
-    if let Err(e) = std::fs::write(&evp, serde_json::to_string_pretty(&ev).unwrap() + "\n") {
+    // written next to the target and renamed into place: a reader (or a concurrent run of the
+    // same property) never sees half a file
+    let tmp = root.join("evidence").join(format!(".{}.{}.tmp", prop, std::process::id()));
+    if let Err(e) = std::fs::write(&tmp, serde_json::to_string_pretty(&ev).unwrap() + "\n").and_then(|_| std::fs::rename(&tmp, &evp)) {
         eprintln!("cannot write evidence: {}", e);
         return 2;
     }
